@@ -24,6 +24,14 @@ def main():
                                                  '<br>'.join(sigs) or '—', notes.get(os.path.basename(d), m.get('note', ('not reported by: ' + ', '.join(missed)) if missed else ''))))
     p = os.path.join(VERIF, 'DESIGN.md')
     s = open(p).read()
+    kf = json.load(open(os.path.join(VERIF, 'known_findings.json')))
+    fr = ['%d defects repaired (one `fix:` commit each):' % sum(1 for f in kf['findings'] if f['status'] == 'fixed'), '', '| property | defect (failing input) | fix commit |', '|---|---|---|']
+    for f in kf['findings']:
+        if f['status'] == 'fixed':
+            fr.append('| %s | %s | %s |' % (f['property'], f['what'].replace('|', '/'), f.get('commit', '')))
+    a = s.index('<!-- FIXED-TABLE-BEGIN -->') + len('<!-- FIXED-TABLE-BEGIN -->')
+    b = s.index('<!-- FIXED-TABLE-END -->')
+    s = s[:a] + '\n' + '\n'.join(fr) + '\n' + s[b:]
     a = s.index('<!-- SEEDED-TABLE-BEGIN -->') + len('<!-- SEEDED-TABLE-BEGIN -->')
     b = s.index('<!-- SEEDED-TABLE-END -->')
     s = s[:a] + '\n' + '\n'.join(rows) + '\n' + s[b:]
